@@ -531,3 +531,12 @@ def _fix_effect(I, env):
 c.effect(_fix_effect)
 c.assume_note('Context.fix_break_addrs is used through its contract inside LoopParser.repeat (ghost break_target := current offset); '
               'its own body is verified on break lists of 0..2 pending breaks')
+
+
+# the lexer is a generator over regular-expression matches: at the parser's side it is the abstract token stream
+c = contract('bardolph/parser/lex.py', 'Lex.tokens', serves=[], modular=True, group='parser', name='Lex.tokens (abstract token stream)')
+c.returns(lambda I, env: stream(I))
+c.assume_note('Lex.tokens: yields tokens ending with exactly one EOF token (lexer postcondition; segmentation by the regex engine: bounded stand-in, C16)')
+
+c = contract('bardolph/parser/lex.py', 'Lex.__init__', serves=[], modular=True, group='parser', name='Lex.__init__ (abstract)')
+c.effect(lambda I, env: None)
